@@ -4046,7 +4046,7 @@ pub struct Context {
     idm: Singleton<IdManager>,
     document: Rc<XmlItem>,
     ordering: Singleton<DocumentOrder>,
-    id_map: Singleton<HashMap<usize, Weak<XmlItem>>>,
+    id_map: Singleton<HashMap<usize, WeakItem>>,
     text_expanded: bool,
 }
 
@@ -4074,7 +4074,7 @@ impl Context {
         let id_map = singleton(HashMap::new());
         id_map
             .borrow_mut()
-            .insert(info.borrow().id, Rc::downgrade(&document));
+            .insert(info.borrow().id, WeakItem::from(&*document));
 
         Context {
             info,
@@ -4089,7 +4089,7 @@ impl Context {
     fn add_item(&self, node: &Rc<XmlItem>) {
         self.id_map
             .borrow_mut()
-            .insert(self.info.borrow().id, Rc::downgrade(node));
+            .insert(self.info.borrow().id, WeakItem::from(&**node));
     }
 
     fn document(&self) -> XmlNode<XmlDocument> {
@@ -4153,6 +4153,73 @@ impl Context {
             id_map: self.id_map.clone(),
             text_expanded: self.text_expanded,
         }
+    }
+}
+
+// -----------------------------------------------------------------------------------------------
+
+/// Entry of the id map: a weak reference to the node itself, so that a node can be found
+/// as long as anything (its parent or a handle held by the user) keeps it alive.
+enum WeakItem {
+    Attribute(Weak<RefCell<XmlAttribute>>),
+    CData(Weak<RefCell<XmlCData>>),
+    CharReference(Weak<RefCell<XmlCharReference>>),
+    Comment(Weak<RefCell<XmlComment>>),
+    DeclarationAttList(Weak<RefCell<XmlDeclarationAttList>>),
+    Document(Weak<RefCell<XmlDocument>>),
+    DocumentType(Weak<RefCell<XmlDocumentTypeDeclaration>>),
+    Element(Weak<RefCell<XmlElement>>),
+    Entity(Weak<RefCell<XmlEntity>>),
+    Namespace(Weak<RefCell<XmlNamespace>>),
+    Notation(Weak<RefCell<XmlNotation>>),
+    PI(Weak<RefCell<XmlProcessingInstruction>>),
+    Text(Weak<RefCell<XmlText>>),
+    Unexpanded(Weak<RefCell<XmlUnexpandedEntityReference>>),
+    Unparsed(Weak<RefCell<XmlUnparsedEntity>>),
+}
+
+impl From<&XmlItem> for WeakItem {
+    fn from(value: &XmlItem) -> Self {
+        match value {
+            XmlItem::Attribute(v) => WeakItem::Attribute(Rc::downgrade(v)),
+            XmlItem::CData(v) => WeakItem::CData(Rc::downgrade(v)),
+            XmlItem::CharReference(v) => WeakItem::CharReference(Rc::downgrade(v)),
+            XmlItem::Comment(v) => WeakItem::Comment(Rc::downgrade(v)),
+            XmlItem::DeclarationAttList(v) => WeakItem::DeclarationAttList(Rc::downgrade(v)),
+            XmlItem::Document(v) => WeakItem::Document(Rc::downgrade(v)),
+            XmlItem::DocumentType(v) => WeakItem::DocumentType(Rc::downgrade(v)),
+            XmlItem::Element(v) => WeakItem::Element(Rc::downgrade(v)),
+            XmlItem::Entity(v) => WeakItem::Entity(Rc::downgrade(v)),
+            XmlItem::Namespace(v) => WeakItem::Namespace(Rc::downgrade(v)),
+            XmlItem::Notation(v) => WeakItem::Notation(Rc::downgrade(v)),
+            XmlItem::PI(v) => WeakItem::PI(Rc::downgrade(v)),
+            XmlItem::Text(v) => WeakItem::Text(Rc::downgrade(v)),
+            XmlItem::Unexpanded(v) => WeakItem::Unexpanded(Rc::downgrade(v)),
+            XmlItem::Unparsed(v) => WeakItem::Unparsed(Rc::downgrade(v)),
+        }
+    }
+}
+
+impl WeakItem {
+    fn upgrade(&self) -> Option<Rc<XmlItem>> {
+        let item = match self {
+            WeakItem::Attribute(v) => XmlItem::Attribute(v.upgrade()?),
+            WeakItem::CData(v) => XmlItem::CData(v.upgrade()?),
+            WeakItem::CharReference(v) => XmlItem::CharReference(v.upgrade()?),
+            WeakItem::Comment(v) => XmlItem::Comment(v.upgrade()?),
+            WeakItem::DeclarationAttList(v) => XmlItem::DeclarationAttList(v.upgrade()?),
+            WeakItem::Document(v) => XmlItem::Document(v.upgrade()?),
+            WeakItem::DocumentType(v) => XmlItem::DocumentType(v.upgrade()?),
+            WeakItem::Element(v) => XmlItem::Element(v.upgrade()?),
+            WeakItem::Entity(v) => XmlItem::Entity(v.upgrade()?),
+            WeakItem::Namespace(v) => XmlItem::Namespace(v.upgrade()?),
+            WeakItem::Notation(v) => XmlItem::Notation(v.upgrade()?),
+            WeakItem::PI(v) => XmlItem::PI(v.upgrade()?),
+            WeakItem::Text(v) => XmlItem::Text(v.upgrade()?),
+            WeakItem::Unexpanded(v) => XmlItem::Unexpanded(v.upgrade()?),
+            WeakItem::Unparsed(v) => XmlItem::Unparsed(v.upgrade()?),
+        };
+        Some(Rc::new(item))
     }
 }
 
